@@ -120,7 +120,7 @@ func newStdSvc(v stdVariant) (*stdSvc, error) {
 			// names an operator wrote with capital letters (the tables are looked up as written)
 			{"Proxy-A.Corp.test", ip(1)}, {"Proxy-B.Corp.test", ip(2)}, {"Proxy-C.Corp.test", ip(3)}, {"Hop-B.Corp.test", ip(21)},
 			{"hop-a.test", ip(20)}, {"hop-b.test", ip(21)}, {"hop-c.test", ip(25)},
-			{"ua-a.test", ip(10)}, {"ua-b.test", ip(11)}, {"foreign.test", ip(60)},
+			{"ua-a.test", ip(10)}, {"ua-b.test", ip(11)}, {"UA-C.Corp.test", ip(12)}, {"foreign.test", ip(60)},
 			// elements that are only ever known by name: nothing comes from their
 			// addresses and no message writes them (C06)
 			{"natted-a.test", ip(27)}, {"natted-b.test", ip(28)},
